@@ -308,7 +308,9 @@ pub fn run_batch<C: Check>(check: &C, ctx: &Ctx, stream: &str, n: usize, open: &
     }
     let slots: Mutex<Vec<Option<Slot>>> = Mutex::new((0..n).map(|_| None).collect());
     let sid = rng::stream_id(&format!("{}/{}", check.id(), stream));
-    let max_fail = std::env::var("VERIF_MAXFAIL").ok().and_then(|s| s.parse::<usize>().ok()).unwrap_or(6);
+    // (C12 collects more: scenarios of a batch share the process, so a failure seen in the batch can
+    // come from interference BETWEEN scenarios; only failures that reproduce alone are reported)
+    let max_fail = std::env::var("VERIF_MAXFAIL").ok().and_then(|s| s.parse::<usize>().ok()).unwrap_or(if check.id() == "C12" { 64 } else { 6 });
     let fail_count = AtomicUsize::new(0);
     let trace_runs = std::env::var("VERIF_TRACE_RUNS").is_ok();
     std::thread::scope(|sc| {
@@ -617,6 +619,23 @@ pub fn run_check<C: Check>(
         all.clear();
     }
     let mut extra_no = 0u32;
+    if id == "C12" && std::env::var("VERIF_TRIAGE").is_err() {
+        // keep the failures that reproduce when the scenario runs alone in this process
+        let before = all.len();
+        all.retain(|(run, f, scn_v)| {
+            if *run >= u64::MAX - 1 {
+                return true;
+            }
+            match serde_json::from_value::<C::Scn>(scn_v.clone()) {
+                Ok(scn) => execute_caught(check, &scn).failure.map(|g| g.clause == f.clause).unwrap_or(false),
+                Err(_) => true,
+            }
+        });
+        if all.is_empty() && before > 0 {
+            eprintln!("HARNESS-ERROR: {} scenarios diverged inside the batch but none of them diverges when run alone (interference between scenarios of one process: not replayable)", before);
+            harness_error = true;
+        }
+    }
     for (run, f, scn_v) in all.iter() {
         // report at most 2 replay files per clause
         let key = f.clause.clone();
@@ -683,12 +702,26 @@ pub fn run_check<C: Check>(
                 n_viol += 1;
             }
             Ok(o) => {
-                eprintln!(
-                    "HARNESS-ERROR: replay of {} did not reproduce in a fresh process (exit {:?})",
-                    path.display(),
-                    o.status.code()
-                );
-                harness_error = true;
+                // The minimised scenario does not fail in a fresh process. Minimisation ran inside
+                // this process; if the failure depends on state other scenarios left behind here
+                // (the very thing C12 is about), shrinking can strip the scenario of what makes it
+                // fail on its own. Fall back to the scenario as it was found.
+                let original = ReplayFile { property: id.to_string(), clause: f.clause.clone(), observed: f.observed.clone(), seed: ctx.seed, run: *run, scenario: scn_v.clone(), detail: f.detail.clone(), minimised_steps: 0 };
+                let again = std::fs::write(&path, serde_json::to_string_pretty(&original).unwrap_or_default()).ok().and_then(|_| {
+                    std::process::Command::new(std::env::current_exe().unwrap_or_else(|_| PathBuf::from("tsim"))).arg("replay").arg(&path).env("TSIM_REPLAY_QUIET", "1").output().ok()
+                });
+                if again.map(|o2| o2.status.code() == Some(1)).unwrap_or(false) {
+                    println!("VIOLATION property={} replay={}", id, path.display());
+                    println!("  clause={} minimised_steps=0 (the minimised scenario only failed inside the batch process; reported as found)", f.clause);
+                    n_viol += 1;
+                } else {
+                    eprintln!(
+                        "HARNESS-ERROR: replay of {} did not reproduce in a fresh process (exit {:?})",
+                        path.display(),
+                        o.status.code()
+                    );
+                    harness_error = true;
+                }
             }
             Err(e) => {
                 eprintln!("HARNESS-ERROR: cannot spawn replay: {}", e);
